@@ -35,6 +35,8 @@ Lemma refused_reads_back : gen_refused_reads_back = true.
 Proof. reflexivity. Qed.
 Lemma write_landed_spec n : gen_write_landed n = n.
 Proof. reflexivity. Qed.
+Lemma refusal_read_back_regenerated : gen_refused_reads_back = true /\ (forall names_ours, gen_write_landed names_ours = names_ours).
+Proof. split; [exact refused_reads_back | exact write_landed_spec]. Qed.
 
 (* prompt machine: at most one read-back is pending; its actor has flipped, the pointer still names its file, no exception
    is propagating in it *)
